@@ -720,6 +720,66 @@ def deep_lines():
                                          'stats': {'deep_%d' % d: 1}, 'names': ['a', 'leaf'], 'verbs': ['deep']}))
     return out
 
+def crossclass_lines():
+    """systematic: the SAME literal text at several sensitive positions of DIFFERENT classes (plain string, $date, $oid, $binary.base64,
+    $uuid, array element) and under DIFFERENT field names, inside one line (every class first once) and spread over consecutive lines;
+    the literals include texts shaped like each class and like each placeholder. What a leaf becomes must depend on its position, never on
+    where the same text was seen before."""
+    lits = ['2024-05-01T10:15:00.000Z', '0123456789abcdef01234567', 'QUJDREVGRw==', 'a657a630-1111-4000-8000-d01de73c37e7', 'zoe@corp.example',
+            'Xq77plainqX', '', '42', 'REDACTED', '1970-01-01T00:00:00.000Z', '000000000000000000000000', 'redacted@redacted.com']
+    names = ['ssn', 'uf_a', 'addr1', 'name', 'tags', 'zzz', 'other', 'plain', 'email', 'age']
+    ctxs = [('plain', '%(k)s:%(x)s'), ('date', '%(k)s:{"$date":%(x)s}'), ('oid', '%(k)s:{"$oid":%(x)s}'),
+            ('b64', '%(k)s:{"$binary":{"base64":%(x)s,"subType":"00"}}'), ('arr', '%(k)s:{"$in":[%(x)s,{"$date":%(x)s}]}'), ('uuid', '%(k)s:{"$uuid":%(x)s}')]
+    places = ['{"find":"c","filter":{%s},"$db":"d"}', '{"update":"c","updates":[{"q":{"k":1},"u":{"$set":{%s}}}],"$db":"d"}',
+              '{"aggregate":"c","pipeline":[{"$match":{%s}}],"$db":"d"}', '{"insert":"c","documents":[{%s}],"$db":"d"}',
+              '{"delete":"c","deletes":[{"q":{%s},"limit":0}],"$db":"d"}']
+    out = []
+    uniq = set(lits[:6])
+    def line(cmd, used, what, x):
+        l = '{"t":{"$date":"2020-01-01T00:00:00.000+00:00"},"s":"I","c":"COMMAND","id":51803,"ctx":"conn1","msg":"Slow query","attr":{"ns":"d.c","command":%s,"remote":"10.0.0.1:5"}}' % cmd
+        out.append((l.encode(), {'kind': 'crossclass', 'sensitive': ([(x, 'string', 'literal repeated across classes')] if x in uniq else []), 'sens_numbers': [], 'ip': '10.0.0.1:5', 'stats': {'crossclass_' + what: 1}, 'names': used, 'verbs': ['crossclass']}))
+    n = 0
+    for li, x in enumerate(lits):
+        xq = json.dumps(x)
+        for r in range(len(ctxs)):                       # one line, every class, each class first once
+            rot = ctxs[r:] + ctxs[:r]
+            used = [names[(li + r + j) % len(names)] for j in range(len(rot))]
+            body = ','.join(t % {'k': json.dumps(used[j]), 'x': xq} for j, (_, t) in enumerate(rot))
+            line(places[(li + r) % len(places)] % body, used, 'oneline', x)
+        for r in range(len(ctxs)):                       # consecutive lines, one class each
+            nm = names[(li * 3 + r) % len(names)]
+            line(places[(li + 2 * r) % len(places)] % (ctxs[(r + li) % len(ctxs)][1] % {'k': json.dumps(nm), 'x': xq}), [nm], 'sequence', x)
+    return out
+
+def family_logs():
+    """systematic: families of NEAR-DUPLICATE lines - a base line and variants that differ from it in exactly one member (plan summary, one literal,
+    one field name, the namespace, the verb, one diagnostic attribute) while every other member, including planCacheKey / queryHash / ctx / id, is the
+    same - arranged as logs in both orders and with repetitions. Whatever a line yields must not depend on which of its relatives came before it.
+    Returns a list of logs (lists of lines)."""
+    def entry(ns='mydb.users', plan='IXSCAN { name: 1 }', flt=None, key='A1B2C3D4', qh='9F8E7D6C', verb='find', ctx='conn7', extra=None, comp='COMMAND'):
+        db, coll = ns.split('.', 1)
+        cmd = {verb: coll, 'filter': flt if flt is not None else {'name': 'Fam1 Alice', 'age': {'$gt': 41}}, '$db': db}
+        if verb == 'aggregate': cmd = {'aggregate': coll, 'pipeline': [{'$match': flt if flt is not None else {'name': 'Fam1 Alice', 'age': {'$gt': 41}}}], '$db': db}
+        attr = {'type': 'command', 'ns': ns, 'command': cmd, 'planSummary': plan, 'planCacheKey': key, 'queryHash': qh, 'queryShapeHash': qh * 4, 'keysExamined': 7, 'remote': '10.1.2.3:4455', 'durationMillis': 12}
+        if extra: attr.update(extra)
+        return json.dumps({'t': {'$date': '2020-01-01T00:00:00.000+00:00'}, 's': 'I', 'c': comp, 'id': 51803, 'ctx': ctx, 'msg': 'Slow query', 'attr': attr}, separators=(',', ':')).encode()
+    base = entry()
+    variants = [
+        entry(plan='IXSCAN { age: 1 }'), entry(plan='IXSCAN { name: 1, age: -1 }'), entry(plan='COLLSCAN'),
+        entry(flt={'name': 'Fam2 Bob', 'age': {'$gt': 41}}), entry(flt={'name': 'Fam1 Alice', 'age': {'$gt': 99}}), entry(flt={'nick': 'Fam1 Alice', 'age': {'$gt': 41}}),
+        entry(flt={'name': {'$oid': '0123456789abcdef01234567'}, 'age': {'$gt': 41}}), entry(flt={'name': 'Fam1 Alice', 'age': {'$gt': True}}),
+        entry(ns='mydb.orders'), entry(ns='otherdb.users'), entry(ns='mydb_archive.users'), entry(ns='shop.users'),
+        entry(key='FFFFFFFF'), entry(qh='00000000'), entry(verb='count'), entry(verb='aggregate'), entry(ctx='conn8'),
+        entry(comp='NETWORK'), entry(comp='QUERY'), entry(extra={'originatingCommand': {'find': 'users', 'filter': {'name': 'Fam3 Carol'}, '$db': 'mydb'}}),
+        entry(extra={'remote': '[::1]:27017'}), entry(extra={'errMsg': 'E11000 duplicate key', 'ok': 0}),
+    ]
+    logs = []
+    for v in variants:
+        logs += [[base, v], [v, base], [base, v, base], [v, v, base, v]]
+    logs.append([base] + variants)
+    logs.append(list(reversed(variants)) + [base])
+    return logs
+
 def vocab_from_dump(dump):
     allk, argnames = [], []
     def walk(m, top):
